@@ -172,6 +172,12 @@ class Obj:
         Obj._n += 1
         self.label = label or "obj%d" % Obj._n
 
+    def __getattr__(self, k):
+        f = self.__dict__.get("fields", {})
+        if k in f:
+            return f[k]
+        raise AttributeError(k)
+
     def __repr__(self):
         return "<Obj %s %s>" % (getattr(self.cls, "qualname", self.cls), self.label)
 
